@@ -168,6 +168,29 @@ theorem C04_ifaceRemove_content_partial (w : World) (p : Nat) (i : Int)
     exact this
   · rfl
 
+/-! ### network/simpleHTTP.go: the interceptor list is used persistently -/
+
+/-- `AddInterceptor` / `RemoveInterceptor` / `ClearInterceptor` on instance `p` (for any interceptor list) leave
+    every existing backing array unchanged — in particular the caller's slice the instance was built from, up to
+    its capacity — and every other instance (stream cell) with its elements, also one built from the same slice. -/
+theorem C04_http_instances_independent {w : World} (hw : Wf w) {p : Nat} (hp : p < w.strs.length) (ids : List Int) :
+    ∀ w' ∈ [w.httpAdd p ids, w.httpRemove p ids, w.httpClear p],
+      (∀ s : Slice, s.arr < w.arrs.length → w'.sliceContent s = w.sliceContent s ∧ w'.sliceHidden s = w.sliceHidden s) ∧
+      (∀ q, q < w.strs.length → q ≠ p → w'.strContent q = w.strContent q) ∧ Wf w' := by
+  intro w' hw'
+  have f : HFrame w w' p := by
+    simp only [List.mem_cons, List.mem_singleton, List.not_mem_nil, or_false] at hw'
+    rcases hw' with rfl | rfl | rfl
+    · exact httpAdd_frame ids hw hp
+    · exact httpRemove_frame ids hw hp
+    · exact httpClear_frame hw p
+  have harr : ∀ a, a < w.arrs.length → w'.arrAt a = w.arrAt a := fun a ha => getD_of_prefix f.arrs ha _
+  refine ⟨fun s hs => ⟨by simp [sliceContent, harr _ hs], by simp [sliceHidden, harr _ hs]⟩, ?_, f.wf⟩
+  intro q hq hne
+  unfold strContent
+  rw [f.strs q hq hne]
+  simp [sliceContent, harr _ (strHdr_arr_lt hw q)]
+
 /-! ### results: the elements the sequence definition prescribes -/
 
 theorem C04_newStream_content (w : World) (l : List Int) (tail : Nat) :
@@ -275,7 +298,8 @@ theorem C04_effects_inventory :
      "StreamDef.Concat", "StreamDef.Extend", "StreamDef.Reverse", "StreamDef.Clone", "StreamDef.ToArray",
      "StreamForInterfaceDef.Remove", "StreamForInterfaceDef.SortByIndex", "MapSetDef.Add", "MapSetDef.Set",
      "MapSetDef.Union", "MapSetDef.Minus", "SetForInterfaceDef.Add", "StreamSetDef.Union", "StreamSetDef.MinusStreams",
-     "StreamSetForInterfaceDef.Clone", "fp.Filter", "fp.Reverse", "fp.Concat", "fp.DuplicateSlice"].all
+     "StreamSetForInterfaceDef.Clone", "fp.Filter", "fp.Reverse", "fp.Concat", "fp.DuplicateSlice", "network.SimpleHTTPDef.AddInterceptor",
+     "network.SimpleHTTPDef.RemoveInterceptor", "network.SimpleHTTPDef.ClearInterceptor"].all
       (fun n => Gen.streamEffects.any (fun e => e.name == n)) = true := by
   decide +kernel
 
